@@ -337,7 +337,8 @@ impl Chain {
                         let p = if *pool == Pool::Ironwood && !ironwood_ok { Pool::Orchard } else { *pool };
                         let who = match who {
                             Who::Foreign(_) if world.foreign.is_empty() => Who::Wallet(0),
-                            w => *w,
+                            Who::Foreign(i) => Who::Foreign(i % world.foreign.len() as u8),
+                            Who::Wallet(i) => Who::Wallet(i % world.accounts.len() as u8),
                         };
                         let keys = world.keys(who);
                         let v = Zatoshis::from_u64(*value).expect("value in range");
@@ -370,7 +371,11 @@ impl Chain {
                                     rec.spends.push(SpendRec { pool: p, nf: snf, note: Some(note).filter(|n| *n != usize::MAX), index: out_index });
                                     keys.orchard.add_logical_action(&mut ctx, &world.net, bh, nfo, None, at, v, 0, rng)
                                 } else {
-                                    keys.orchard.add_output(&mut ctx, &world.net, bh, None, at, v, 0, rng)
+                                    let nf = keys.orchard.add_output(&mut ctx, &world.net, bh, None, at, v, 0, rng);
+                                    // every action reveals a nullifier; an output-only action reveals a dummy one
+                                    let dummy: [u8; 32] = ctx.actions.last().unwrap().nullifier.clone().try_into().unwrap();
+                                    rec.spends.push(SpendRec { pool: p, nf: dummy, note: None, index: out_index });
+                                    nf
                                 };
                                 let cm: [u8; 32] = ctx.actions.last().unwrap().cmx.clone().try_into().unwrap();
                                 (nf.to_bytes(), cm, position, out_index)
@@ -384,7 +389,10 @@ impl Chain {
                                     rec.spends.push(SpendRec { pool: p, nf: snf, note: Some(note).filter(|n| *n != usize::MAX), index: out_index });
                                     fvk.add_logical_action(&mut ctx, &world.net, bh, nfo, None, at, v, 0, rng)
                                 } else {
-                                    fvk.add_output(&mut ctx, &world.net, bh, None, at, v, 0, rng)
+                                    let nf = fvk.add_output(&mut ctx, &world.net, bh, None, at, v, 0, rng);
+                                    let dummy: [u8; 32] = ctx.ironwood_actions.last().unwrap().nullifier.clone().try_into().unwrap();
+                                    rec.spends.push(SpendRec { pool: p, nf: dummy, note: None, index: out_index });
+                                    nf
                                 };
                                 let cm: [u8; 32] = ctx.ironwood_actions.last().unwrap().cmx.clone().try_into().unwrap();
                                 (nf.to_bytes(), cm, position, out_index)
@@ -552,5 +560,28 @@ pub fn scope_of(s: ScopeSel) -> Scope {
     match s {
         ScopeSel::Internal => Scope::Internal,
         _ => Scope::External,
+    }
+}
+
+/// A block source that hands out exactly the given blocks (up to `limit`), whatever height they
+/// claim — a server returning a malformed block.
+pub struct RawBlockSource(pub Vec<CompactBlock>);
+
+impl BlockSource for RawBlockSource {
+    type Error = String;
+
+    fn with_blocks<F, WalletErrT>(
+        &self,
+        _from_height: Option<BlockHeight>,
+        limit: Option<usize>,
+        mut with_block: F,
+    ) -> Result<(), ChainError<WalletErrT, Self::Error>>
+    where
+        F: FnMut(CompactBlock) -> Result<(), ChainError<WalletErrT, Self::Error>>,
+    {
+        for b in self.0.iter().take(limit.unwrap_or(usize::MAX)) {
+            with_block(b.clone())?;
+        }
+        Ok(())
     }
 }
